@@ -175,6 +175,27 @@ def run_case(case):
                 viol.append(V("structure-depends-on-depth", at_1x={str(k_): v for k_, v in a.items()}, at_kx={str(k_): v for k_, v in b.items()}))
         except AldyException as e:
             viol.append(V("estimate-cn-exception", message=str(e)[:200]))
+    # neutral region on ANOTHER chromosome, at coordinates that overlap the gene's: depths of different chromosomes stay apart
+    if case.get("otherchr") and case["route"] == "bam":
+        import copy as _copy
+
+        sim9 = _copy.copy(sim)
+        sim9.chrom = "9" if gene.chr != "9" else "10"
+        a9 = max(10, wide.start + 10)
+        cnr9 = GRange(sim9.chrom, a9, a9 + ln)
+        X = os.path.join(d, "x.bam")
+        two = [("1", frozenset())] * 2
+        nreads = [r_ for c_ in range(2) for r_ in sim.tile(f"n9_{c_}", a9 - 150, a9 + ln + 150, {}, rl, step)]
+        simreads.write_multi(X, [(sim, sim.sample_reads(two, rl, step, skip=("neutral",))), (sim9, nreads)])
+        try:
+            px = Profile.load(gene, X, cnr9)
+            tx = rc_table(gene, Sample(gene, px, X))
+            bad = {f"{gi}:{r}": v for (gi, r), v in tx.items() if px.data[gene.name][r][gi] and not close(v, 2.0)}
+            if bad:
+                viol.append(V("self-profile-with-neutral-region-on-another-chromosome-not-2.0", diffs=dict(list(bad.items())[:4])))
+            labels.append("neutral-region-on-another-chromosome")
+        except AldyException as e:
+            viol.append(V("neutral-region-on-another-chromosome-rejected", message=str(e)[:200]))
     # empty neutral region is rejected
     try:
         Sample(gene, profile(P), E)
@@ -194,6 +215,7 @@ def strategy(tier):
         "depth": st.sampled_from([10, 20]),
         "k": st.integers(2, 5),
         "nshift": st.sampled_from([0, 0, 37, 120, 333]),
+        "otherchr": st.booleans(),
         "nlen": st.sampled_from([1000, 400, 150, 777]),
         "route": st.sampled_from(["bam", "file"]),
         "odd": st.sampled_from([0, 3, 8]),
